@@ -658,14 +658,17 @@ func runJobctlScenarios(c *Ctx) {
 		c.Nontrivial()
 	})
 
-	// F32 (known finding).  C12: the pending timeout applies to "a task that has not begun running".
+	// F32 (REPAIRED; regression replay — fails on the tree before the repair).  C12: the pending
+	// timeout applies to "a task that has not begun running".
 	// restartPolicy OnFailure (admitted by validation: only Always is refused).  The task runs, the
 	// running timestamp is recorded in status.tasks; the container exits with an error and waits to
 	// be restarted (CrashLoopBackOff): its current state is Waiting, the start time is only under
-	// LastTerminationState.  handlePendingTasks reads the running timestamp from the LIVE pod
-	// (task.GetTaskRef(), not the recorded ref) and GetContainerStartTime only looks at
-	// State.Running / State.Terminated: the task looks as if it had never started, and any pass after
-	// creation + pendingTimeout deletes it as "PendingTimeout".
+	// LastTerminationState.  Before the repair handlePendingTasks read the running timestamp from the
+	// LIVE pod (task.GetTaskRef(), not the recorded ref) and GetContainerStartTime only looked at
+	// State.Running / State.Terminated: the task looked as if it had never started, and any pass
+	// after creation + pendingTimeout deleted it as "PendingTimeout".  Now the recorded ref decides
+	// and LastTerminationState counts as a start: the pass at 1005 s issues no call
+	// (Lean: C12Side.running_task_not_reaped_as_pending).
 	c.RunScenario("f32-crashloop-task-reaped-as-pending", func() {
 		w := newJobctlSc(c, func(j *execution.Job) {
 			j.Spec.Template.TaskTemplate.Pod.Spec.RestartPolicy = corev1.RestartPolicyOnFailure
@@ -690,17 +693,23 @@ func runJobctlScenarios(c *Ctx) {
 		w.adv(1000)              // beyond creation + pending timeout (900 s, controller default)
 		w.kubeletCrashLoop(name) // the container failed and waits for its restart
 		w.flush()
-		w.work() // reaped: delete + DeletedStatus Killed/PendingTimeout
+		w.work() // before the repair: reaped (delete + DeletedStatus Killed/PendingTimeout); now: nothing
 		w.flush()
+		if p := w.apiPod(name); p == nil || p.DeletionTimestamp != nil {
+			c.Violate("C12", "scenario-f32-regression", "the task that had begun running was deleted by the pending-timeout pass")
+		}
 		w.settle(4)
 		w.runTimersOut()
 		w.finalMonitors()
 		c.Nontrivial()
 	})
 
-	// F32, second history: the container starts and fails BETWEEN two passes, so no pass ever saw it
-	// Running and no running timestamp is recorded either; the only trace of the start is
-	// LastTerminationState.Terminated.StartedAt, which GetContainerStartTime does not read.
+	// F32, second history (REPAIRED; regression replay): the container starts and fails BETWEEN two
+	// passes, so no pass ever saw it Running; the only trace of the start is
+	// LastTerminationState.Terminated.StartedAt, which GetContainerStartTime now reads: the first pass
+	// after the failure records the running timestamp, the pass after creation + pendingTimeout reaps
+	// nothing (Lean: C12Side.crashed_before_observed_not_reaped).  The first hunk of the repair alone
+	// (recorded ref) does not cover this history.
 	c.RunScenario("f32b-crashloop-before-first-observation", func() {
 		w := newJobctlSc(c, func(j *execution.Job) {
 			j.Spec.Template.TaskTemplate.Pod.Spec.RestartPolicy = corev1.RestartPolicyOnFailure
@@ -721,8 +730,14 @@ func runJobctlScenarios(c *Ctx) {
 		w.work()
 		w.flush()
 		w.adv(1000) // beyond creation + pending timeout
-		w.work()    // the pending-timeout timer: reaped
+		w.work()    // the pending-timeout timer: before the repair reaped; now nothing
 		w.flush()
+		if p := w.apiPod(name); p == nil || p.DeletionTimestamp != nil {
+			c.Violate("C12", "scenario-f32-regression", "the task whose container had started and failed was deleted by the pending-timeout pass")
+		}
+		if j := w.apiJob(); j == nil || len(j.Status.Tasks) != 1 || j.Status.Tasks[0].RunningTimestamp.IsZero() {
+			c.Violate("C12", "scenario-f32-regression", "the container start under LastTerminationState was not recorded as running timestamp")
+		}
 		w.settle(4)
 		w.runTimersOut()
 		w.finalMonitors()
